@@ -145,7 +145,7 @@ def velocity_part(ctx, cfg, g):
 
     dim = len(cfg["shape"])
     g = (tuple(g[0]), tuple(g[1]))
-    tol = 1e-11 if ctx.real_t == np.float64 else 5e-4
+    tol = 1e-11 if ctx.real_t == np.float64 else 5e-5
     r1 = run_step(ctx, cfg, tag="a_", scalar_tag="", cuts=False, step=False)
     sim1 = r1["sim"]
     bound_vars(ctx, sim1.vorticity_field)
